@@ -129,7 +129,7 @@ def ensure_harness(name, variant="std", libs=("dtoolbase",), extra=(), compiler=
             flags += ["-fno-rtti", "-fno-sanitize=vptr"]      # the project is built without RTTI
         if san is None:
             san = {"std": [], "asan": ["-fsanitize=address,undefined", "-fno-sanitize-recover=undefined"],
-                   "fuzz": ["-fsanitize=fuzzer,address,undefined", "-fno-sanitize-recover=undefined"]}[variant]
+                   "fuzz": ["-fsanitize=fuzzer,address,undefined", "-fno-sanitize-recover=undefined", "-D_GLIBCXX_ASSERTIONS"]}[variant]
         inc = ["-I", gen]
         for d in build.include_dirs(variant):
             inc += ["-I", d]
